@@ -24,7 +24,7 @@ impl Solver {
     pub fn spawn() -> Solver {
         let bin = std::env::var("SYMRT_CVC5").unwrap_or_else(|_| "cvc5".into());
         let mut child = Command::new(bin)
-            .args(["--incremental", "--lang", "smt2", "--produce-models", "--tlimit-per=30000"])
+            .args(["--incremental", "--lang", "smt2", "--produce-models", "--tlimit-per=10000"])
             .stdin(Stdio::piped())
             .stdout(Stdio::piped())
             .stderr(Stdio::null())
@@ -181,4 +181,84 @@ pub fn z3_oneshot(script: &str) -> Option<bool> {
         Some("unsat") => Some(false),
         _ => None,
     }
+}
+
+/// Fallback for an `unknown` answer of the incremental solver: the whole query in a fresh,
+/// non-incremental process (cvc5 first, then z3-new, then z3).  Outer None = still unknown.
+pub fn oneshot_robust(script_decls_asserts: &str, vars: &[(String, u32)], want_model: bool) -> Option<Option<HashMap<String, U256>>> {
+    let mut script = String::from("(set-option :produce-models true)\n(set-logic QF_BV)\n");
+    script.push_str(script_decls_asserts);
+    script.push_str("(check-sat)\n");
+    if want_model && !vars.is_empty() {
+        script.push_str("(get-value (");
+        for (n, _) in vars {
+            script.push('|');
+            script.push_str(n);
+            script.push_str("| ");
+        }
+        script.push_str("))\n");
+    }
+    let attempts: Vec<(String, Vec<&str>)> = vec![
+        (std::env::var("SYMRT_CVC5").unwrap_or_else(|_| "cvc5".into()), vec!["--lang", "smt2", "--tlimit=120000"]),
+        ("z3-new".into(), vec!["-in", "-T:120"]),
+        (std::env::var("SYMRT_Z3").unwrap_or_else(|_| "/usr/bin/z3".into()), vec!["-in", "-T:120"]),
+    ];
+    for (bin, args) in attempts {
+        let Ok(mut child) = Command::new(&bin).args(&args).stdin(Stdio::piped()).stdout(Stdio::piped()).stderr(Stdio::null()).spawn() else { continue };
+        if let Some(mut si) = child.stdin.take() {
+            let _ = si.write_all(script.as_bytes());
+        }
+        let Ok(out) = child.wait_with_output() else { continue };
+        let text = String::from_utf8_lossy(&out.stdout).to_string();
+        if text.contains("(error") {
+            continue;
+        }
+        let first = text.lines().next().map(|l| l.trim().to_string()).unwrap_or_default();
+        if first == "unsat" {
+            return Some(None);
+        }
+        if first == "sat" {
+            let mut m = HashMap::new();
+            if want_model {
+                let rest: String = text.lines().skip(1).collect::<Vec<_>>().join(" ");
+                m = parse_model(&rest);
+            }
+            return Some(Some(m));
+        }
+    }
+    None
+}
+
+pub fn parse_model(text: &str) -> HashMap<String, U256> {
+    let mut m = HashMap::new();
+    let bytes = text.as_bytes();
+    let mut i = 0;
+    while i < bytes.len() {
+        if bytes[i] == b'|' {
+            let j = text[i + 1..].find('|').map(|k| i + 1 + k).unwrap_or(bytes.len());
+            let name = text[i + 1..j].to_string();
+            let rest = text[j + 1..].trim_start();
+            let val_end = rest.find(')').unwrap_or(rest.len());
+            let tok = rest[..val_end].trim();
+            let v = if let Some(b) = tok.strip_prefix("#b") {
+                U256::from_str_radix(b, 2).unwrap_or(U256::ZERO)
+            } else if let Some(h) = tok.strip_prefix("#x") {
+                U256::from_str_radix(h, 16).unwrap_or(U256::ZERO)
+            } else if tok == "true" {
+                U256::from(1u8)
+            } else if tok == "false" {
+                U256::ZERO
+            } else if let Some(r) = tok.strip_prefix("(_ bv") {
+                let d = r.split_whitespace().next().unwrap_or("0");
+                U256::from_str_radix(d, 10).unwrap_or(U256::ZERO)
+            } else {
+                U256::ZERO
+            };
+            m.insert(name, v);
+            i = j + 1 + (text[j + 1..].len() - rest.len()) + val_end;
+        } else {
+            i += 1;
+        }
+    }
+    m
 }
